@@ -113,6 +113,15 @@ ROUND5 = {
     "C20": "Round 5: FrozenTrial arguments of study code count as shared; Study wrappers honour deepcopy=True; fields a Study caches from storage getters are as shared as the getter's result.",
 }
 
+# clauses added in seeding round 6
+ROUND6 = {
+    "C02": "Round 6: the worker pool is joined on every way out of optimize; the storages' finished guard is atomic with the write; the sampler's after_trial gets its own copy of the values.",
+    "C05": "Round 6: the take-over clauses (lock observed, not its target; timer restarted; removal after a full grace period) are checked for C05 as well.",
+    "C06": "Round 6: JournalStorage.__setstate__ re-creates what __init__ derives from the worker id prefix.",
+    "C10": "Round 6: the grid-membership tolerance is a constant.",
+    "C16": "Round 6: a threshold bound is missing only if it is None; the patience window is cut from the sorted step keys.",
+}
+
 PENDING_REASON = "static check designed (DESIGN.md §3) but not built yet in this snapshot; not claimed until it runs clean"
 
 
@@ -126,6 +135,8 @@ def main():
                 text = text + " " + ROUND4[pid]
             if pid in ROUND5:
                 text = text + " " + ROUND5[pid]
+            if pid in ROUND6:
+                text = text + " " + ROUND6[pid]
             checks.append({
                 "property_id": pid,
                 "quick_cmd": f"./check {pid} --tier quick",
